@@ -757,6 +757,37 @@ func c09R4(ic *IC, r *Report) {
 				continue
 			}
 		}
+		// no evaluation outside the watcher: a return placed before the evaluation goroutine is
+		// started must not evaluate anything itself (round-5 seed: ctx.Done() == nil delegated to
+		// the context-less sibling, whose channel operations are generated non-cancellable for good)
+		{
+			var goPos token.Pos = token.NoPos
+			ownNodes(fi.Decl.Body, func(m ast.Node) bool {
+				if g, ok := m.(*ast.GoStmt); ok && (goPos == token.NoPos || g.Pos() < goPos) {
+					goPos = g.Pos()
+				}
+				return true
+			})
+			bad := ""
+			ownNodes(fi.Decl.Body, func(m ast.Node) bool {
+				rs, ok := m.(*ast.ReturnStmt)
+				if !ok || rs.Pos() > goPos {
+					return true
+				}
+				for _, res := range rs.Results {
+					for _, c := range allCalls(res) {
+						if f, ok := calleeOf(ic.Info, c).(*types.Func); ok && f.Pkg() == ic.Pk.Types {
+							if sg := f.Type().(*types.Signature); sg.Recv() != nil && isNamedPtr(sg.Recv().Type(), "Interpreter") {
+								bad = f.Name() + " at " + ic.pos(c.Pos())
+							}
+						}
+					}
+				}
+				return true
+			})
+			r.Check(bad == "", "R09.4", name+"/evaluates-only-under-the-watcher", ic.pos(fi.Decl.Pos()), "every evaluation started by the entry point is watched",
+				name+" returns the result of "+bad+" before its watcher goroutine is set up: that evaluation runs without cancellation support (the cancellable mode is fixed when the closures are generated, so functions loaded this way can never be interrupted in a channel operation, even by a later cancellable evaluation)")
+		}
 		verified[name] = okWatch
 		r.Check(okWatch, "R09.4", name+"/watcher", ic.pos(fi.Decl.Pos()), "select on ctx.Done() -> stop() -> return ctx.Err()", name+": "+why)
 	}
